@@ -46,4 +46,6 @@ Step(a) ==
                     /\ recs' = (IF st' = "None" THEN NoRecs
                                 ELSE IF rc0[1] = -1 THEN <<total, total>>
                                 ELSE <<rc0[1], rc0[2] + 1>>)
+Reset == /\ since' = 0 /\ st' = "None" /\ recs' = NoRecs /\ win' = <<>> /\ r' = 0 /\ UNCHANGED <<cfg, total>>
+PendingReset == st = "drift" /\ Reset
 ============================================================================
